@@ -29,7 +29,13 @@
     Matrix / MatrixView, Tensor / TensorView (D <= 3), TensorAccess incl. the Data Layout line
     (D <= 2), Record / Trace, LDLTDecomposition, RecordMatrix / RecordTensor Display with and without
     precision, over the exact element types i64 and Tok (prints the precision it is given);
-    texts travel as lists of character codes and are compared byte for byte."""
+    texts travel as lists of character codes and are compared byte for byte.
+    Wave 2 (families appended LAST in gen): kinds 1 / 2 for every D <= 6 (the general arm of
+    tensors/display.rs); (18 3 6 form err) the Display / {:?} / {:#?} text of all 9 error types from
+    exact payloads (any names, lengths 0 .. 2^64-1; built by constructor AND taken from the failing
+    call where the API can produce the payload); (18 3 7 form val) derived Debug of Tensor / Matrix /
+    both IndexRange / DataLayout / shape and name arrays; (18 3 8 prec kind ..) QR, LDLT-tensor,
+    QR-tensor and MatrixQuadrants Display -- all against Model/FormatDebug.v (grammar: Run/RunC18.v)."""
 import itertools, os, random, re, subprocess
 from tools import vlib
 from tools.vlib import sx
@@ -175,6 +181,148 @@ def format_cases(tier, rng):
                 yield sx([18, 3, 2, el, prec, [[n, a] for n, a in zip(names, lens)], _vals(rng, vol), rng.randrange(2)])
 
 
+USIZE_MAX = 2 ** 64 - 1
+
+
+def _nshape(rng, D, wild=True):
+    """a shape for an ERROR payload: any names (duplicates allowed), any lengths (0, huge)"""
+    pool = [0, 1, 2, 3, 7, 10, 255, 2 ** 32, USIZE_MAX, USIZE_MAX - 1] if wild else [1, 2, 3]
+    return [[rng.randrange(0, 13) if rng.random() < 0.8 else rng.randrange(100, 130),
+             rng.choice(pool) if rng.random() < 0.5 else rng.randrange(0, 5)] for _ in range(D)]
+
+
+def _names(rng, k):
+    return [rng.randrange(0, 13) if rng.random() < 0.8 else rng.randrange(100, 130) for _ in range(k)]
+
+
+def _irv(rng):
+    if rng.random() < 0.5:
+        return [0, _nshape(rng, rng.randrange(0, 5))]
+    return [1, _names(rng, rng.randrange(0, 4)), _names(rng, rng.randrange(0, 5))]
+
+
+def _hist(rng):
+    return [] if rng.random() < 0.35 else [rng.randrange(0, 4)]
+
+
+def _valid_shape(rng, D, maxlen=3):
+    return [[n, rng.randrange(1, maxlen + 1)] for n in rng.sample(range(0, 40), D)]
+
+
+def _vol(sh):
+    v = 1
+    for _, a in sh:
+        v *= a
+    return v
+
+
+def random_error(rng):
+    k = rng.randrange(9)
+    if k == 0:
+        return [0, _nshape(rng, rng.randrange(0, 7))]
+    if k == 1:
+        return [1, _names(rng, rng.randrange(0, 4)), _names(rng, rng.randrange(0, 5))]
+    if k == 2:
+        D = rng.randrange(0, 7)
+        if rng.random() < 0.6:                      # a payload the failing constructor itself produces
+            sh = _valid_shape(rng, D)
+            req = [n for n, _ in sh]
+            rng.shuffle(req)
+            if D and rng.random() < 0.8:
+                req[rng.randrange(D)] = rng.choice(req) if rng.random() < 0.5 else rng.randrange(200, 210)
+            return [2, sh, req]
+        return [2, _nshape(rng, D), _names(rng, D)]
+    if k == 3:
+        return [3, _irv(rng)]
+    if k == 4:
+        if rng.random() < 0.6:
+            D = rng.randrange(0, 7)
+            if rng.random() < 0.6:
+                sh = _valid_shape(rng, D)
+                rs = [[] if rng.random() < 0.3 else [[rng.randrange(0, 4), rng.randrange(0, 6)]] for _ in range(D)]
+            else:
+                sh = _nshape(rng, D)
+                rs = [[] if rng.random() < 0.3 else [[rng.choice([0, 1, 5, USIZE_MAX]), rng.choice([0, 1, 9, USIZE_MAX])]] for _ in range(D)]
+            return [4, 0, sh, rs]
+        return [4, 1, _irv(rng)]
+    if k == 5:
+        return [5]
+    if k == 6:
+        j = rng.randrange(3)
+        if j == 0:
+            return [6, 0, _nshape(rng, rng.randrange(0, 7)), rng.choice([0, 1, 5, 1000, USIZE_MAX])]
+        if j == 1:
+            return [6, 1]
+        return [6, 2, _hist(rng), _hist(rng)]
+    if k == 7:
+        return [7, _hist(rng), _hist(rng)]
+    msh, csh = _valid_shape(rng, 1, 4), _valid_shape(rng, 2, 3)
+    return [8, rng.randrange(2), msh, _vals(rng, _vol(msh)), csh, _vals(rng, _vol(csh))]
+
+
+def random_debug_value(rng):
+    k = rng.randrange(7)
+    if k == 0:
+        sh = _valid_shape(rng, rng.randrange(0, 7), 3 if rng.random() < 0.5 else 2)
+        return [0, sh, _vals(rng, _vol(sh))]
+    if k == 1:
+        r, c = rng.randrange(1, 5), rng.randrange(1, 5)
+        return [1, r, c, _vals(rng, r * c)]
+    if k in (2, 3):
+        return [k, rng.choice([0, 1, 7, USIZE_MAX, rng.randrange(0, 10 ** 6)]), rng.choice([0, 1, 12, USIZE_MAX, rng.randrange(0, 10 ** 6)])]
+    if k == 4:
+        j = rng.randrange(4)
+        return [4, [0, _names(rng, rng.randrange(0, 7))]] if j < 2 else [4, [j - 1]]
+    if k == 5:
+        return [5, _nshape(rng, rng.randrange(0, 7))]
+    return [6, _names(rng, rng.randrange(0, 7))]
+
+
+def wave2_cases(tier, rng):
+    """general-D tensor / access Display (D = 4..6), error values in three forms, derived Debug, decompositions"""
+    quick = tier == "quick"
+    # every shape of D = 4 with lengths <= 2 (3 in the last two), and the D = 5, 6 shapes with lengths <= 2
+    for D in (4, 5, 6):
+        for lens in itertools.product(*([(1, 2)] * (D - 2) + [(1, 2, 3)] * 2)):
+            if D > 4 and rng.random() < (0.5 if quick else 0.0):
+                continue
+            for el, prec in ((0, []), (1, [2])):
+                names = rng.sample(range(12), D)
+                sh = [[n, a] for n, a in zip(names, lens)]
+                yield sx([18, 3, 1, el, prec, sh, _vals(rng, _vol(sh))])
+            if rng.random() < 0.3:
+                yield sx([18, 3, 2, rng.randrange(2), rng.choice(PRECS), sh, _vals(rng, _vol(sh)), 0])
+    for _ in range(150 if quick else 3000):
+        D = rng.randrange(3, 7)
+        sh = _valid_shape(rng, D, 4 if D < 5 else 3)
+        if _vol(sh) <= 400:
+            if rng.random() < 0.2:
+                yield sx([18, 3, 2, rng.randrange(2), rng.choice(PRECS), sh, _vals(rng, _vol(sh)), 0])
+            else:
+                yield sx([18, 3, 1, rng.randrange(2), rng.choice(PRECS), sh, _vals(rng, _vol(sh))])
+    # errors: every kind x every form, many payloads
+    for _ in range(900 if quick else 20000):
+        e = random_error(rng)
+        for form in ((0, 1, 2) if rng.random() < 0.5 else (rng.randrange(3),)):
+            yield sx([18, 3, 6, form, e])
+    for _ in range(400 if quick else 8000):
+        v = random_debug_value(rng)
+        for form in (1, 2):
+            yield sx([18, 3, 7, form, v])
+    for _ in range(150 if quick else 3000):
+        prec = rng.choice(PRECS)
+        k = rng.randrange(4)
+        if k in (0, 2):
+            qr, qc, rr, rc = (rng.randrange(1, 4) for _ in range(4))
+            yield sx([18, 3, 8, prec, k, qr, qc, _vals(rng, qr * qc), rr, rc, _vals(rng, rr * rc)])
+        elif k == 1:
+            n = rng.randrange(1, 4)
+            yield sx([18, 3, 8, prec, 1, n, _vals(rng, n * n), _vals(rng, n * n)])
+        else:
+            rows, cols = rng.randrange(2, 6), rng.randrange(2, 6)
+            yield sx([18, 3, 8, prec, 3, rng.randrange(2), rows, cols, _vals(rng, rows * cols), rng.randrange(1, rows), rng.randrange(1, cols)])
+
+
 def gen(tier, rng):
     quick = tier == "quick"
     for c in format_cases(tier, rng):
@@ -199,6 +347,9 @@ def gen(tier, rng):
         ty = rng.randrange(2)
         for layout in range(4):
             yield machine_case(ty, layout, p)
+    # wave 2 families LAST, so that the earlier families keep their random stream
+    for c in wave2_cases(tier, rng):
+        yield c
 
 
 def nontrivial(case, model_out):
@@ -214,7 +365,7 @@ def distribution(lines):
     fmt = [l for l in lines if l.startswith("(18 3 ")]
     lines = [l for l in lines if not l.startswith("(18 3 ")]
     d = {"programs": len(lines) // 4, "layouts": 4, "with_cross_tape_panic_or_error": 0, "max_len": 0,
-         "format_cases": len(fmt), "format_cases_by_kind": {k: sum(1 for l in fmt if l.startswith("(18 3 %d " % k)) for k in range(6)}}
+         "format_cases": len(fmt), "format_cases_by_kind": {k: sum(1 for l in fmt if l.startswith("(18 3 %d " % k)) for k in range(9)}}
     for l in lines[::4]:
         d["max_len"] = max(d["max_len"], l.count("(") - 2)
         if l.count("(0)") >= 2:
